@@ -181,6 +181,21 @@ def gen_tree(rng, tpl, regular=True):
 
 def check_result(tpl, before, res, after, verdict, ops, what):
     """the property's clauses on one run of the real function; returns True when all hold"""
+    # ---- the template the theorems are instantiated with (Gen.templateShape, regenerated by tools/extract from the embed
+    # patterns and the files on disk) must be the tree the real embed.FS contains, in WalkDir order
+    def fnv64a(b):
+        h = 0xcbf29ce484222325
+        for x in b:
+            h = ((h ^ x) * 0x100000001b3) & 0xffffffffffffffff
+        return h
+    gsrc = open(os.path.join(LEAN, "Hidi", "Gen", "Tables.lean")).read()
+    gi = gsrc.find("def templateShape")
+    gshape = re.findall(r'\("((?:[^"\\]|\\.)*)", (true|false), "([^"]*)"\)', gsrc[gi:gsrc.find("]\n", gi)]) if gi >= 0 else []
+    want = [(p_, "true" if c is None else "false", "" if c is None else "%d:%016x" % (len(c), fnv64a(c))) for p_, c in tpl]
+    if [tuple(x) for x in gshape] != want:
+        verdict.violation({"clause": "template-shape"},
+                          {"what": "Gen.templateShape (tools/extract) differs from the tree in the real embed.FS (harness dump)",
+                           "gen": gshape[:30], "embedded": want[:30]}, False)
     tplmap = dict(tpl)
     ok = True
 
